@@ -15,7 +15,7 @@ def run(chk):
                        'a segment is purged without force when a page of that segment is freed or allocated at or after the expiry (mi_collect(false) does not visit segments) - this is how the code defines "ordinary later activity"; arenas are purged by _mi_arena_free and by mi_collect(false)']
     chk.extra['rule'] = ('obligations = theorems of Props/C18.lean over guards regenerated from the source; evaluations = operations of the real purge functions replayed by the model '
                          '+ oracle checks (pages of freed memory examined); distinct = distinct operation lines / configurations')
-    chk.lean('MiVerif.Props.C18', groups=['Purge'])
+    chk.lean('MiVerif.Props.C18', groups=['Purge', 'Arith', 'Commit', 'ArenaGen'])
     okd, exe, log = V.build_driver()
     if not okd:
         chk.broken_tie('lean driver does not build (generated guards changed shape?)', log[-1500:])
